@@ -825,6 +825,8 @@ def rule_body_only_rendered(model):
             par = _parent(n)
             if isinstance(par, ast.Attribute):
                 continue                  # self.section seen as `self`
+            if isinstance(par, ast.keyword):
+                par = _parent(par)        # f(section=section)
             n_use += 1
             verdict = None
             if isinstance(par, ast.Call) and (n in par.args or any(
